@@ -62,6 +62,32 @@ func c04Doc(c *fw.Ctx, doc string) *fw.Violation {
 	return nil
 }
 
+// c04Batch: json($) as ONE call site over a whole array of documents.
+func c04Batch(c *fw.Ctx, docs []string) *fw.Violation {
+	s := drive.Spec{Program: "{ print json($) }", Files: []drive.File{{Name: "in.json", Data: "[" + strings.Join(docs, ",") + "]"}}, WantRoot: true, Budget: 5_000_000}
+	o := run(c, s)
+	c.Traces++
+	c.Transitions += int64(len(docs))
+	if o.Kind != drive.KNone || o.RootKind != drive.KNone {
+		return c04Fail("json($) over an array of plain documents failed", s, o, "")
+	}
+	st := ParseStream([]byte(o.Stdout))
+	root, ok := ParseJSON(o.RootJSON)
+	if st.Status != StreamClean || len(st.Values) != len(docs) || !ok || root.K != JArr || len(root.Items) != len(docs) {
+		return c04Fail("json($) over an array of documents is not one valid JSON text per element", s, o, "")
+	}
+	for i, d := range docs {
+		want, _ := ParseJSON(d)
+		if !EqualNodes(st.Values[i].Node, want) {
+			return c04Fail("json($) of element "+fmt.Sprint(i)+" does not parse back to the document "+d, s, o, d)
+		}
+		if !EqualNodes(root.Items[i], want) {
+			return c04Fail("-o element "+fmt.Sprint(i)+" does not parse back to the document "+d, s, o, d)
+		}
+	}
+	return nil
+}
+
 var c04SelSteps = []func(Expr) Expr{
 	func(x Expr) Expr { return Mem(x, "a") },
 	func(x Expr) Expr { return Idx(x, N("0")) },
@@ -250,6 +276,20 @@ func init() {
 					}
 				}
 			case u == docUnits:
+				// one call site over batches of documents, in enumeration order and reversed
+				for lo := 0; lo < full.Count() && lo < 40000; lo += 500 {
+					var docs []string
+					for i := lo; i < lo+500 && i < full.Count(); i++ {
+						docs = append(docs, full.At(i))
+					}
+					lo := lo
+					c.Do(func() any { return c04Spec{Form: "batch", Lo: lo} }, func() *fw.Violation { return c04Batch(c, docs) })
+					rev := make([]string, len(docs))
+					for i, d := range docs {
+						rev[len(docs)-1-i] = d
+					}
+					c.Do(func() any { return c04Spec{Form: "batchrev", Lo: lo} }, func() *fw.Violation { return c04Batch(c, rev) })
+				}
 				for lo := 0; lo < len(sweep); lo += numChunk {
 					hi := lo + numChunk
 					if hi > len(sweep) {
@@ -279,6 +319,17 @@ func init() {
 				return c04Sel(c, s.Doc, s.Sel)
 			case "nums":
 				return c04Nums(c, sweep[s.Lo:s.Hi])
+			case "batch", "batchrev":
+				var docs []string
+				for i := s.Lo; i < s.Lo+500 && i < full.Count(); i++ {
+					docs = append(docs, full.At(i))
+				}
+				if s.Form == "batchrev" {
+					for i, j := 0, len(docs)-1; i < j; i, j = i+1, j-1 {
+						docs[i], docs[j] = docs[j], docs[i]
+					}
+				}
+				return c04Batch(c, docs)
 			}
 			return c04Graph(c, s.Seq)
 		},
